@@ -4,7 +4,7 @@ import re
 
 from ..core import AnalysisError, dotted, walk_no_nested
 from ..cfg import CFG, cond_guards
-from ..util import calls_in, local_defs, depends_on, const_val, NOVAL, names_in, truth_under
+from ..util import if_chain, calls_in, local_defs, depends_on, const_val, NOVAL, names_in, truth_under
 
 ASSUMPTIONS = [
     '`git config <key> <value>` replaces a single-valued key idempotently; `--unset`/`--remove-section` act only on the named key/section (git semantics, trusted)',
@@ -46,7 +46,7 @@ def git_config_calls(cg, fn):
     return out
 
 
-def run(ctx):
+def _run_base(ctx):
     repo, cg = ctx.repo, ctx.cg
     ctx.rule('R18.1', 'enable writes only nbdime-owned keys; shared tool selectors only under set_default; no multi-value/removal flags',
              floor=8, floor_what='config writes of the four enable functions')
@@ -243,3 +243,52 @@ def run(ctx):
                 ctx.inst('R18.5', 'nbdime.__main__:main_dispatch', repo.norm(rets[-1]) if rets else '<no return>', ok, why, s)
     if not found:
         raise AnalysisError('config-git arm not found in main_dispatch')
+
+
+def run(ctx):
+    """R18.6: "nothing to remove / already set" is not a failure of a config subcommand.
+
+    `nbdime config-git` chains the four commands with `or` (R18.5): a non-zero status of one stops the rest.  git exits
+    non-zero when asked to remove a section / unset a key that is absent -- the normal situation when disabling twice or
+    disabling a part that was never enabled.  So either the config arm of each command returns a constant 0 after calling the
+    enable/disable function, or (if it forwards that function's result) no enable/disable function returns the status of a
+    git command."""
+    ctx.rule('R18.6', 'a config subcommand does not turn "already absent" into a non-zero status (which would stop the config-git chain before the other drivers/tools are handled)', floor=4)
+    _run_base(ctx)
+    repo = ctx.repo
+    for short, mod in sorted(MODS.items()):
+        mn = repo.func(mod + ':main')
+        arm = None
+        for n in walk_no_nested(mn):
+            if isinstance(n, ast.If):
+                for test, body, node in if_chain(n)[0]:
+                    if any(isinstance(c, ast.Constant) and c.value == 'config' for c in ast.walk(test)):
+                        arm = body
+        if arm is None:
+            raise AnalysisError('%s:main: config arm not found' % mod)
+        rets = [r for st in arm for r in ast.walk(st) if isinstance(r, ast.Return)]
+        forwards = [r for r in rets if r.value is not None and any(isinstance(x, ast.Attribute) and x.attr == 'config_func' for x in ast.walk(r.value))]
+        # results assigned first and returned later
+        for st in arm:
+            if isinstance(st, ast.Assign) and any(isinstance(x, ast.Attribute) and x.attr == 'config_func' for x in ast.walk(st.value)):
+                names = {t.id for t in st.targets if isinstance(t, ast.Name)}
+                forwards += [r for r in rets if r.value is not None and names & {x.id for x in ast.walk(r.value) if isinstance(x, ast.Name)}]
+        if not forwards:
+            ok = all(r.value is not None and const_val(r.value) == 0 for r in rets) and bool(rets)
+            ctx.inst('R18.6', mod + ':main', 'config arm returns %s' % [ast.unparse(r.value) if r.value is not None else None for r in rets], ok,
+                     'the status of a config subcommand is 0 whatever git reported for removals' if ok else 'config arm does not return 0', arm[0])
+            continue
+        leaks = []
+        for fname in ('enable', 'disable'):
+            f = repo.functions.get('%s:%s' % (mod, fname))
+            if f is None:
+                continue
+            for r in walk_no_nested(f):
+                if isinstance(r, ast.Return) and r.value is not None and const_val(r.value) not in (None, 0):
+                    leaks.append((fname, r))
+        ok = not leaks
+        ctx.inst('R18.6', mod + ':main', 'config arm forwards the result of config_func: %s' % repo.norm(forwards[0]), ok,
+                 'enable/disable return nothing, so the forwarded status is 0' if ok else
+                 '%s() returns %s, and main() forwards it as exit status: `git config --remove-section/--unset` on something already absent exits non-zero, '
+                 'so `nbdime config-git --disable` stops after this command and leaves the other drivers/tools enabled' % (
+                     leaks[0][0], repo.norm(leaks[0][1].value)[:70]), leaks[0][1] if leaks else forwards[0])
